@@ -133,12 +133,20 @@ def run_case(case):
         grid = int(rng.integers(1, 13))
         radius = float(rng.choice([0.5, 1.0, 1.5, 2.0, 3.0, 6.0]))
 
+        errmode = [None, None, "ignore", "warn"][int(np.random.default_rng([nc, nb, grid]).integers(4))]
+        hist["errstate:" + str(errmode)] = hist.get("errstate:" + str(errmode), 0) + 1
+
         def run(p, T, generic):
             _assign(fr, p, T)
             CTX["cur"] = cur = {"generic": generic}
             try:
                 with env.Capture():
-                    st.stress_tensor(fr, grid, radius)
+                    if errmode is None:
+                        st.stress_tensor(fr, grid, radius)
+                    else:
+                        # the caller's numpy error state (the package arms 'raise' on import, a user may set another)
+                        with np.errstate(all=errmode):
+                            st.stress_tensor(fr, grid, radius)
             except Exception as exc:
                 import traceback
                 mon.fail("raises", "the stress tensor is computed", exc=repr(exc)[:160], grid=grid, radius=radius,
